@@ -45,15 +45,18 @@ def mode_a(tier):
     cfg = "Replication.exh.quick.cfg" if tier == "quick" else "Replication.exh.thorough.cfg"
     # side by side: the design model, and the as-implemented model of F-C05-1 alone (forced clean exists, timer per member):
     # everything that F-C05-1 does not break, and loss only for members away for longer than TolerateTime
+    # (the exhaustive as-implemented run belongs to the thorough tier; set C05_ASIMPL=1 to have it in the quick tier too)
+    asimpl = tier != "quick" or bool(os.environ.get("C05_ASIMPL"))
     with cf.ThreadPoolExecutor(2) as ex:
-        f1 = ex.submit(vlib.run_tlc, "ReplicationMC", cfg, timeout=1200 if tier == "quick" else 3000, workers=max(4, vlib.NCPU // 2))
-        f2 = ex.submit(vlib.run_tlc, "ReplicationMC", "Replication.asimpl.quick.cfg", timeout=1200, workers=max(4, vlib.NCPU // 2 - 2))
-        r, r2 = f1.result(), f2.result()
+        f1 = ex.submit(vlib.run_tlc, "ReplicationMC", cfg, timeout=2400 if tier == "quick" else 3400, workers=max(4, vlib.NCPU // 2))
+        f2 = ex.submit(vlib.run_tlc, "ReplicationMC", "Replication.asimpl.quick.cfg", timeout=2400, workers=max(4, vlib.NCPU // 2 - 2)) if asimpl else None
+        r, r2 = f1.result(), (f2.result() if f2 else None)
     vlib.tlc_must_pass(r, cfg)
     stats = {"cfg": cfg, "generated": r["generated"], "distinct": r["distinct"], "depth": r["depth"], "wall_s": round(r["wall_s"], 1)}
-    vlib.tlc_must_pass(r2, "Replication.asimpl.quick.cfg")
-    stats["as_implemented_F-C05-1"] = {"cfg": "Replication.asimpl.quick.cfg", "generated": r2["generated"], "distinct": r2["distinct"],
-                                       "depth": r2["depth"], "wall_s": round(r2["wall_s"], 1)}
+    if r2:
+        vlib.tlc_must_pass(r2, "Replication.asimpl.quick.cfg")
+        stats["as_implemented_F-C05-1"] = {"cfg": "Replication.asimpl.quick.cfg", "generated": r2["generated"], "distinct": r2["distinct"],
+                                           "depth": r2["depth"], "wall_s": round(r2["wall_s"], 1)}
     base = open(os.path.join(vlib.SPECS, "cfg", "Replication.exh.quick.cfg")).read()
     tmp = vlib.scratch("c05cfg")
     caught = {}
@@ -68,7 +71,7 @@ def mode_a(tier):
                 if inv != "HealthyTickResets":
                     txt = re.sub(r"(?m)^PROPERTIES .*\n", "", txt)
             open(p, "w").write(txt)
-            rr = vlib.run_tlc("ReplicationMC", p, timeout=900, workers=4)
+            rr = vlib.run_tlc("ReplicationMC", p, timeout=1800, workers=4)
             if rr["violated"] != inv:
                 raise vlib.Infra(f"deviation {dev} should violate {inv} in Replication.tla, TLC says {rr['violated']} / {rr['error']}")
             caught[dev] = inv
@@ -533,12 +536,12 @@ class Driver:
             ok = do_write(*plan[0])
             tb = time.time()
             while ok:
-                st, body = cl.query(f"select count(v) from {mst}", db=DB)
                 try:
+                    st, body = cl.query(f"select count(v) from {mst}", db=DB)
                     if body["results"][0]["series"][0]["values"][0][1] == len(plan[0][1]):
                         break
-                except Exception:
-                    pass
+                except Exception as ex:          # not there yet, or the query timed out on an overloaded machine
+                    body = locals().get("body", str(ex))
                 if time.time() - tb > 90:
                     # acknowledged, every store up, not readable after 90 s (a new series is searchable after 1-2 s): not a matter of
                     # lag any more. The judged closing queries decide (TLC rejects a history whose acknowledged rows are missing).
@@ -965,7 +968,200 @@ def f_c05_2(r, k):
             f"are missing on it for good: {_stale(x)} of {len(x['latest'])} cells stale or absent")
 
 
-DEVIATION_MODELS = {"F-C05-1": f_c05_1, "F-C05-2": f_c05_2}
+def f_c05_3(r, k):
+    """F-C05-3 (a store that restarts serves the first queries while its recovery is still running). Predicate: the store that was
+    master when it was killed is restarted less than 3 s later (meta needs ~2.3 s to report a store failed: the master partition never
+    moved), nothing else is down, and event k is the answer of a query that began before, or at most 1 s after, that restart and
+    ended within 5 s after it. Prediction: the answer is the complete answer with some rows MISSING - every row it has carries a
+    value the cell may hold during the query (nothing stale, nothing invented), at least one acknowledged cell is absent - and the
+    view heals: the next query begun after this answer returns every one of the missing cells. A cell that stays missing, a stale
+    value, another store, a longer outage: not this finding."""
+    ev = r["events"]
+    e = ev[k]
+    if e["ev"] != "QEnd":
+        return None
+    qb = next((i for i in range(k, -1, -1) if ev[i]["ev"] == "QBegin" and ev[i]["q"] == e["q"]), None)
+    ir = next((i for i in range(k, -1, -1) if ev[i]["ev"] == "Restart"), None)
+    if qb is None or ir is None:
+        return None
+    st = ev[ir]["i"]
+    ik = next((i for i in range(ir, -1, -1) if ev[i]["ev"] == "Kill" and ev[i]["i"] == st), None)
+    if ik is None or ev[ik].get("master") != st or ev[ir]["t"] - ev[ik]["t"] >= 3.0:
+        return None
+    if not (ev[qb]["t"] <= ev[ir]["t"] + 1.0 and ev[ir]["t"] <= e["t"] <= ev[ir]["t"] + 5.0):
+        return None
+    down = set()
+    for i, x in enumerate(ev[:k]):
+        if x["ev"] == "Kill":
+            down.add(x["i"])
+            if i > qb and x["i"] != st:
+                return None
+        elif x["ev"] == "Restart":
+            down.discard(x["i"])
+        if i == qb and down - {st}:
+            return None
+    acked, allowed, pend = {}, {}, None
+    for i, x in enumerate(ev[:k]):
+        if x["ev"] == "WBegin":
+            pend = x
+            for c in x["cells"]:
+                allowed.setdefault(c, set()).add(x["w"])
+        elif x["ev"] == "WAck" and pend:
+            for c in pend["cells"]:
+                if i < qb:
+                    acked[c] = pend["w"]
+                    allowed[c] = {pend["w"]}
+            pend = None
+        elif x["ev"] == "WFail":
+            return None
+    got = {}
+    for c, v in e["rows"]:
+        if c in got or v not in allowed.get(c, set()):
+            return None                          # duplicate, stale or invented: not predicted
+        got[c] = v
+    missing = sorted(c for c in acked if c not in got)
+    if not missing:
+        return None
+    nxt = next((j for j in range(k + 1, len(ev)) if ev[j]["ev"] == "QEnd" and
+                any(ev[b]["ev"] == "QBegin" and ev[b]["q"] == ev[j]["q"] for b in range(k + 1, j))), None)
+    if nxt is None:
+        return None
+    later = {c: v for c, v in ev[nxt]["rows"]}
+    if any(later.get(c, 0) < acked[c] for c in missing):
+        return None                              # still missing afterwards: a loss, not a view of a recovery in progress
+    return (f"query answered {e['t'] - ev[ir]['t']:.2f}s after store {st} (master partition; killed {ev[ir]['t'] - ev[ik]['t']:.2f}s earlier, no fail-over) was "
+            f"restarted returns {len(got)} of {len(acked)} acknowledged cells, all with the right value ({len(missing)} missing: {missing[:6]}); the next query, "
+            f"{ev[nxt]['t'] - e['t']:.2f}s later, returns them: the restarted store answers before its recovery is complete")
+
+
+def f_c05_4(r, k):
+    """F-C05-4 (restart replay races with the live apply path: an entry of (snapshot index, commit] that is re-applied by
+    readReplayForReplication AFTER a newer write to the same point has been applied through the commit channel puts the OLD value
+    back). Predicate: event k is the answer of a read DIRECTED at store D (preceding Switch to D's partition, no kill / restart in
+    between), D was killed and restarted before. Prediction, cell by cell: the latest acknowledged value, or - only for a cell whose
+    latest write began after a Kill(D) - the value of the last write to that cell acknowledged before that Kill(D) and not followed
+    by a Flush before the kill (unflushed on D: it is replayed at the restart); no cell missing, at least one cell old. Anything
+    else (a missing row, an older or foreign value, another replica): not this finding."""
+    ev = r["events"]
+    e = ev[k]
+    if e["ev"] != "QEnd":
+        return None
+    sw = [i for i in range(k) if ev[i]["ev"] in ("Switch", "Kill", "Restart")]
+    if not sw or ev[sw[-1]]["ev"] != "Switch":
+        return None
+    D = ev[sw[-1]]["store"]
+    qb = next(i for i in range(k, -1, -1) if ev[i]["ev"] == "QBegin" and ev[i]["q"] == e["q"])
+    if qb < sw[-1]:
+        return None
+    kills = [i for i in range(k) if ev[i]["ev"] == "Kill" and ev[i]["i"] == D and
+             any(ev[j]["ev"] == "Restart" and ev[j]["i"] == D for j in range(i, k))]
+    if not kills:
+        return None
+    writes = []          # (begin, ack, w, cells)
+    i = 0
+    while i < k:
+        x = ev[i]
+        if x["ev"] == "WBegin":
+            j = next((j for j in range(i + 1, len(ev)) if ev[j]["ev"] in ("WAck", "WFail")), None)
+            if j is None or ev[j]["ev"] != "WAck" or j > k:
+                return None
+            writes.append((i, j, x["w"], x["cells"]))
+        i += 1
+    latest, begun = {}, {}
+    for b, a, w, cells in writes:
+        for c in cells:
+            latest[c], begun[c] = w, b
+    allowed = {c: {v} for c, v in latest.items()}
+    for ik in kills:
+        pre = {}
+        for b, a, w, cells in writes:
+            if a < ik and not any(ev[f]["ev"] == "Flush" for f in range(a, ik)):
+                for c in cells:
+                    pre[c] = w
+            elif a < ik:
+                for c in cells:
+                    pre.pop(c, None)
+        for c, w in pre.items():
+            if begun[c] > ik:
+                allowed[c].add(w)
+    got = {}
+    for c, v in e["rows"]:
+        if c in got:
+            return None
+        got[c] = v
+    if set(got) != set(latest) or any(got[c] not in allowed[c] for c in got):
+        return None
+    old = sorted(c for c in got if got[c] != latest[c])
+    if not old:
+        return None
+    return (f"read directed at store {D} (killed and restarted {len(kills)} time(s) before) returns every cell, {len(old)} of them with the value they had "
+            f"when the store was killed ({', '.join(f'{c}={got[c]} instead of {latest[c]}' for c in old[:4])}): the restart replay of the unflushed "
+            f"entries was applied after the newer write to the same points; the fresh rows of the newer write are there")
+
+
+def f_c05_5(r, k):
+    """F-C05-5 (read gap of a fail-over: a write is acknowledged once the LEADER has applied it; a follower applies it when it
+    learns the commit index. When the store of the master partition dies right after an acknowledgement, the new master serves
+    reads before a new raft leader has committed - and the followers applied - the entries they hold but did not know to be
+    committed). Predicate: the store that was master was killed, no other store is down, and event k is the answer of a query that
+    began within 12 s after that kill (failure detection ~2.3 s + raft election 4 - 8 s). Prediction: the answer is EXACTLY the
+    state after a PREFIX of the client's write sequence that contains every write acknowledged more than 1 s before the kill and
+    lacks at least one acknowledged write; a later query returns the full state. Anything else: not this finding."""
+    ev = r["events"]
+    e = ev[k]
+    if e["ev"] != "QEnd":
+        return None
+    qb = next((i for i in range(k, -1, -1) if ev[i]["ev"] == "QBegin" and ev[i]["q"] == e["q"]), None)
+    ik = next((i for i in range(qb or 0, -1, -1) if ev[i]["ev"] == "Kill"), None)
+    if qb is None or ik is None or ev[ik].get("master") != ev[ik]["i"] or not ev[ik]["t"] <= ev[qb]["t"] <= ev[ik]["t"] + 12.0:
+        return None
+    down = set()
+    for x in ev[:k]:
+        if x["ev"] == "Kill":
+            down.add(x["i"])
+        elif x["ev"] == "Restart":
+            down.discard(x["i"])
+    if down - {ev[ik]["i"]}:
+        return None
+    writes = []           # acknowledged before the query began: (ack time, w, cells)
+    pend = None
+    for i, x in enumerate(ev[:qb]):
+        if x["ev"] == "WBegin":
+            pend = x
+        elif x["ev"] == "WAck" and pend:
+            writes.append((x["t"], pend["w"], pend["cells"]))
+            pend = None
+        elif x["ev"] == "WFail":
+            return None
+    if pend is not None:
+        return None                              # a write in flight when the query began: not predicted
+    got = {}
+    for c, v in e["rows"]:
+        if c in got:
+            return None
+        got[c] = v
+    must = len([1 for t, w, cells in writes if t < ev[ik]["t"] - 1.0])
+    for m in range(len(writes) - 1, must - 1, -1):
+        st = {}
+        for t, w, cells in writes[:m]:
+            for c in cells:
+                st[c] = w
+        if st == got:
+            full = {}
+            for t, w, cells in writes:
+                for c in cells:
+                    full[c] = w
+            healed = any(x["ev"] == "QEnd" and x["t"] > e["t"] and all(dict(x["rows"]).get(c, 0) >= v for c, v in full.items()) for x in ev[k + 1:])
+            if not healed:
+                return None
+            lag = [w for t, w, cells in writes[m:]]
+            return (f"query begun {ev[qb]['t'] - ev[ik]['t']:.1f}s after the store of the master partition (store {ev[ik]['i']}) was killed returns exactly the state "
+                    f"before write(s) {lag}, acknowledged {ev[ik]['t'] - writes[m][0]:.3f}s before the kill: the new master answers before a new raft leader "
+                    f"has committed what the followers hold; a later query returns them")
+    return None
+
+
+DEVIATION_MODELS = {"F-C05-1": f_c05_1, "F-C05-2": f_c05_2, "F-C05-3": f_c05_3, "F-C05-4": f_c05_4, "F-C05-5": f_c05_5}
 
 
 def judge(r, open_ids):
